@@ -59,7 +59,7 @@ class Sut:
         shutil.rmtree(self.base, ignore_errors=True)
 
     def run(self, capture: bytes, keylog, argv_opts, probes=None, pn_preset=None, cpu=120, extra_runs=None,
-            cwd_sub=None, env=None, infile_name="in.pcapng", keep=False, pre_out=None, s_missing=False):
+            cwd_sub=None, env=None, infile_name="in.pcapng", keep=False, pre_out=None, s_missing=False, inplace=False):
         """argv_opts: list of extra CLI options (without -i/-o/-s).  keylog: bytes or None (no -s option).
         extra_runs: optional list of dict(capture, keylog, argv_opts) executed IN THE SAME PROCESS before/after
         (see C18); returns list of RunResult (one per run)."""
@@ -67,7 +67,8 @@ class Sut:
         rundir = os.path.join(self.base, "r%d" % self.n)
         os.makedirs(rundir)
         runs = []
-        specs = [dict(capture=capture, keylog=keylog, argv_opts=argv_opts, pre_out=pre_out, s_missing=s_missing)] + \
+        specs = [dict(capture=capture, keylog=keylog, argv_opts=argv_opts, pre_out=pre_out, s_missing=s_missing,
+                      inplace=inplace)] + \
             list(extra_runs or [])
         outs = []
         for j, sp in enumerate(specs):
@@ -75,6 +76,8 @@ class Sut:
             with open(inp, "wb") as f:
                 f.write(sp["capture"])
             outp = os.path.join(rundir, "%d_out.pcapng" % j)
+            if sp.get("inplace"):
+                outp = inp          # -i X -o X: the capture is replaced by its export
             if sp.get("pre_out") is not None:
                 # the output path already holds a file left by an earlier export
                 with open(outp, "wb") as f:
